@@ -91,11 +91,21 @@ var AnalyzerIfArity = &Analyzer{
 		// than a call (a formals list `(if then else)`, a binding entry, a
 		// cond clause) is not an `if` form.
 		skipNodes := aritySkipNodes(pass.Exprs)
+		userDefs := definedFunctionNames(pass.Exprs)
 		WalkSExprs(pass.Exprs, func(sexpr *lisp.LVal, depth int) {
 			if skipNodes[sexpr] {
 				return
 			}
-			if HeadSymbol(sexpr) != "if" {
+			// The same head rules as builtin-arity: lisp:if is the operator
+			// whatever the file defines; a bare if is the file's own function
+			// when the file defines one.
+			switch HeadSymbol(sexpr) {
+			case lisp.DefaultLangPackage + ":if":
+			case "if":
+				if userDefs["if"] {
+					return
+				}
+			default:
 				return
 			}
 			argc := ArgCount(sexpr)
@@ -472,7 +482,7 @@ var bindingForms = map[string]struct{ funBinding, valuesInScope bool }{
 // bindingList returns the binding list of a binding form, or nil if sexpr is
 // not a binding form or is malformed.
 func bindingList(sexpr *lisp.LVal) (binds *lisp.LVal, funBinding bool, valuesInScope bool) {
-	kind, ok := bindingForms[HeadSymbol(sexpr)]
+	kind, ok := bindingForms[coreHead(sexpr)]
 	if !ok || ArgCount(sexpr) < 1 {
 		return nil, false, false
 	}
@@ -558,6 +568,18 @@ func markLocallyShadowedCalls(form *lisp.LVal, binds *lisp.LVal, funBinding bool
 	}
 }
 
+// coreHead returns the head symbol of sexpr with a leading language-package
+// qualifier removed: lisp:let is let, to the evaluator and so to every piece of
+// syntax knowledge in this file.  A head in any other package is returned as
+// written (and matches none of the core names).
+func coreHead(sexpr *lisp.LVal) string {
+	head := HeadSymbol(sexpr)
+	if bare, ok := strings.CutPrefix(head, lisp.DefaultLangPackage+":"); ok {
+		return bare
+	}
+	return head
+}
+
 // definedFunctionNames returns the names the file defines with defun or
 // defmacro, at any depth.  A call whose head is one of them reaches the user's
 // definition (or may, for a definition made inside a function), so the builtin
@@ -565,7 +587,7 @@ func markLocallyShadowedCalls(form *lisp.LVal, binds *lisp.LVal, funBinding bool
 func definedFunctionNames(exprs []*lisp.LVal) map[string]bool {
 	defs := make(map[string]bool)
 	WalkSExprs(exprs, func(sexpr *lisp.LVal, depth int) {
-		switch HeadSymbol(sexpr) {
+		switch coreHead(sexpr) {
 		case "defun", "defmacro":
 			if ArgCount(sexpr) >= 1 && sexpr.Cells[1].Type == lisp.LSymbol {
 				defs[sexpr.Cells[1].Str] = true
@@ -607,10 +629,11 @@ func markParameterCalls(fn *lisp.LVal, formals *lisp.LVal, skip map[*lisp.LVal]b
 func aritySkipNodes(exprs []*lisp.LVal) map[*lisp.LVal]bool {
 	skip := make(map[*lisp.LVal]bool)
 	WalkSExprs(exprs, func(sexpr *lisp.LVal, depth int) {
-		head := HeadSymbol(sexpr)
+		head := coreHead(sexpr)
 		switch head {
-		case "defun", "defmacro":
-			// Formals at position 2: (defun name (formals...) body...)
+		case "defun", "defmacro", "deftype":
+			// Formals at position 2: (defun name (formals...) body...);
+			// for deftype they are the constructor's formals.
 			if ArgCount(sexpr) >= 2 {
 				skip[sexpr.Cells[2]] = true
 				markParameterCalls(sexpr, sexpr.Cells[2], skip)
@@ -688,7 +711,7 @@ func markQuotedData(node *lisp.LVal, skip map[*lisp.LVal]bool) {
 	if node == nil || node.Type != lisp.LSExpr {
 		return
 	}
-	head := HeadSymbol(node)
+	head := coreHead(node)
 	switch {
 	case !node.IsQuoted() && head == "quasiquote":
 		return
